@@ -84,6 +84,14 @@ func c11Build(r *rand.Rand, dir string) *c11Env {
 		}
 	}
 	nl.Edges = kept
+	if r.Intn(2) == 0 {
+		// edge records without targets, between the others (a legal value that callers and decoders produce)
+		for i := 0; i < 1+r.Intn(2); i++ {
+			at := r.Intn(len(nl.Edges) + 1)
+			e := &sbom.Edge{From: gen.Pick(r, ids), Type: gen.Pick(r, []sbom.Edge_Type{sbom.Edge_contains, sbom.Edge_dependsOn}), To: []string{}}
+			nl.Edges = append(nl.Edges[:at], append([]*sbom.Edge{e}, nl.Edges[at:]...)...)
+		}
+	}
 	// realistic package URLs in several spellings (the purl lookups otherwise never match anything)
 	for _, nd := range nl.Nodes {
 		if r.Intn(2) == 0 {
